@@ -533,7 +533,7 @@ class SpawnHarness:
 
 
 # ---------------------------------------------------------------------------------------------------- native confirmation
-def native_probe(tree):
+def native_probe(tree, status=None):
     """observations of the built n2 binary that correspond to the obligations; returns dict key-prefix -> problem text"""
     n2 = tree.n2_bin()
     d = tempfile.mkdtemp(prefix='n2verif-c16-')
@@ -595,7 +595,20 @@ def native_probe(tree):
         rc, out = run('rule r\n  command = exit 0\nbuild o: r\n', 'o')
         if rc != 0:
             bad['termination'] = 'exit 0 is reported as failure (%r)' % out[-200:]
-        rc, out = run('rule r\n  command = exit 256\nbuild o: r\n', 'o')    # sh: exit 256 -> status 0
+        if status is not None and status != 0:
+            # the wait status of the solver's model: exited with that code / killed by that signal
+            if status & 0x7f == 0:
+                code = (status >> 8) & 0xff
+                rc, out = run('rule r\n  command = echo hello; exit %d\nrule ok\n  command = sleep 0.5; touch $out\nbuild o: r\nbuild p: ok\n' % code, '-j 2 -k 10 o p')
+                txt = out.decode('latin1')
+                if rc == 0 or 'interrupted' in txt or 'failed: ' not in txt or not os.path.exists(os.path.join(d, 'p')):
+                    bad['termination'] = 'a command exiting with code %d is not treated as a plain failure: rc=%r %r' % (code, rc, txt[-200:])
+            else:
+                sig = status & 0x7f
+                rc, out = run('rule r\n  command = kill -%d $$$$; sleep 1\nbuild o: r\n' % sig, 'o')
+                txt = out.decode('latin1')
+                if rc == 0 or (('interrupted' in txt) != (sig == SIGINT)):
+                    bad['termination'] = 'a command killed by signal %d: rc=%r %r' % (sig, rc, txt[-200:])
         return bad
     finally:
         shutil.rmtree(d, ignore_errors=True)
@@ -617,8 +630,8 @@ def run(ctx, out):
     probe = None
     for key, lst in ex.failures.items():
         desc, model, extra = lst[0]
-        if probe is None:
-            probe = native_probe(ctx.tree)
+        if probe is None or 'termination' in key:
+            probe = native_probe(ctx.tree, (model or {}).get('status') if 'termination' in key else None)
         k = key.split(':')[1] if ':' in key else key
         nk = NATIVE_KEYS.get(k)
         confirmed = nk in probe if nk else False
